@@ -155,6 +155,12 @@ def finish(prop, tier, seed, nshards, mod, results, inconclusive, t0, is_replay)
         got = counters[name] if name in counters else len(sets.get(name, ()))
         if got < floor:
             inconclusive.append(f"monitor '{name}' observed {got} < floor {floor}")
+    # a workload that synthesises modules must have run them under BOTH annotation styles (evaluated and postponed, PEP 563)
+    styles = ("modules_evaluated_annotations", "modules_postponed_annotations")
+    if not is_replay and any(k in counters for k in styles) and sum(counters.get(k, 0) for k in styles) >= 20:
+        for k in styles:
+            if counters.get(k, 0) == 0:
+                inconclusive.append(f"no generated module ran under '{k}'")
     for name, ok in canaries.items():
         if not ok:
             inconclusive.append(f"canary '{name}' did not fire")
